@@ -291,7 +291,10 @@ PROPS['C04'] = {
     'technique': TECH_K + ' (bounded)',
     'parts': [K('kani:validation_state', 'sdk', [H('c04_state_matches_spec_active_only', 'bounded', '<= 2 success and <= 2 failure codes from a 7-code universe, active manifest optional'),
                                                  H('c04_state_matches_spec_with_delta', 'bounded', '3 symbolic success codes, optional active failure, optional ingredient delta with optional failure')],
-                kind='bounded', timeout=1800, unwindset=['memcmp.0:41'], functions=[('sdk/src/validation_results.rs', 'validation_state')])],
+                kind='bounded', timeout=2400, unwindset=['memcmp.0:41'], functions=[('sdk/src/validation_results.rs', 'validation_state')]),
+              B('native:validation_state', 'sdk', [{'name': 'c04_tolerated_code_classes', 'tier': 'quick'}, {'name': 'c04_state_matches_spec_all_small_results', 'tier': 'quick'}],
+                functions=[('sdk/src/validation_results.rs', 'is_tolerated_manifest_failure_code'), ('sdk/src/validation_results.rs', 'validation_state')],
+                bounds='all subsets of 3 success codes x every sequence of <= 3 failures over 5 codes x up to 2 ingredient deltas (194128 results); tolerated-code classifier on 11571 strings')],
     'trusted_base': TB_KANI,
     'rule': 'evaluations = CBMC checks decided in bounded harnesses over symbolic code selections',
     'not_covered': ['Reader::validation_state fallback for legacy results', 'how status codes are produced (validators)'],
